@@ -394,6 +394,9 @@ enum Op { Put { path: String, nchunks: usize, holes: bool, last_len: usize, ftyp
 pub struct Verdicts<'a> { pub out: &'a mut Out, pub focus: Focus, pub idx: usize, pub cfgid: String }
 impl<'a> Verdicts<'a> {
     pub fn v(&mut self, owner: Focus, pass: bool, oracle: &str, detail: &str, hist: &[String]) {
+        // the byte-exact concrete models include the allocator, so their verdicts also count for C04
+        // (usable free space); every concrete tie reports under C03 among others
+        let owner = if oracle.starts_with("concrete-model") && owner == Focus::C03 && self.focus == Focus::C04 { Focus::C04 } else { owner };
         if owner != self.focus { return; }
         let sig = format!("{}/{}/{}", self.focus.id(), self.cfgid.split('/').next().unwrap_or(""), oracle);
         if pass { self.out.count(&format!("oracle-pass:{}", oracle)); self.out.oracle(true, oracle, &sig, &format!("idx={}", self.idx)); }
@@ -552,10 +555,35 @@ fn one_history(ctx: &mut Ctx, focus: Focus, idx: usize, cfg: &VolCfg, steps: usi
             if let Some(e) = lean_sync(d, &mut tie, &mut w) { vd.out.count(&format!("lean-sync-error:{}", e)); }
             else {
                 lean_check(d, &mut w, &mut vd, "format", None);
+                if cfg.fs.is_cpm() { super::fs_cpm::after_step(d, &mut w, &mut vd, "format"); }
                 if use_pas { pas_tie(d, &mut w, &mut vd, &format!("format {} {} {} ok", hxs("VERIF"), 0xee, hx(&pas_date())), None, "format"); pas_queries(d, &mut w, &mut vd, "format"); }
                 if use_dos { dos_tie(d, &mut w, &mut vd, &format!("init {} 254 ok", if cfg.fs == Fs::Dos32 { 13 } else { 16 }), None, "format"); }
             }
         }
+    }
+    // CP/M 3 scenario: the same 8+3 name in two user areas, both password protected, then one of them unprotected
+    // (entries of different user areas must never be confused; protection is per file)
+    if cfg.fs == Fs::Cpm3 && rng.chance(60) {
+        let base = format!("{}.{}", ["SAME", "TWIN", "DUP"][rng.below(3)], ["TXT", "BIN", "X"][rng.below(3)]);
+        let (u1, u2) = (rng.range(0, 7), rng.range(8, 15));
+        let n1 = if u1 == 0 { base.clone() } else { format!("{}:{}", u1, base) };
+        let n2 = format!("{}:{}", u2, base);
+        let mut script: Vec<Op> = vec![
+            Op::Put { path: n1.clone(), nchunks: rng.range(1, 20), holes: false, last_len: 77, ftype_sel: 0 },
+            Op::Put { path: n2.clone(), nchunks: rng.range(1, 3), holes: false, last_len: 99, ftype_sel: 0 },
+            Op::Protect(canon_path(cfg.fs, &n1)), Op::Protect(canon_path(cfg.fs, &n2)),
+        ];
+        if rng.chance(50) { script.push(Op::Lock(canon_path(cfg.fs, &n2))); }
+        script.push(Op::Unprotect(canon_path(cfg.fs, if rng.chance(50) { &n1 } else { &n2 })));
+        for op in script {
+            let free = w.free().unwrap_or(0);
+            w.lean_op = None; w.last_op = None; w.pas_op = None; w.dos_op = None;
+            let d = apply_op(&mut w, op, rng, free, &mut vd, &mut nontrivial);
+            canon.extend_from_slice(d.as_bytes());
+            if d.starts_with("ABORT") { break; }
+            post_step(&mut w, &mut vd, &mut drv, &mut tie, use_lean, use_pas, use_dos, &d);
+        }
+        vd.out.count("cpm3-protect-scenario");
     }
     // pre-soil: fill the free space once with non-zero data and delete it, so that free units hold stale bytes
     // (a structure that is linked but never written then shows up as garbage instead of zeros)
@@ -627,7 +655,7 @@ fn one_history(ctx: &mut Ctx, focus: Focus, idx: usize, cfg: &VolCfg, steps: usi
     // pressure fill: use up the remaining free space so that any unit wrongly marked free (by an earlier,
     // possibly refused, operation) is handed out again and the damage becomes visible in the files; then free
     // some space in the middle of the volume and fill it again exactly (allocator wrap-around paths)
-    if !slow_cfg(cfg) && rng.chance(50) {
+    if !slow_cfg(cfg) && rng.chance(if focus == Focus::C04 { 85 } else { 50 }) {
         let mut phase = 0; // 0 = first fill, 1 = refill after a delete
         let mut rounds = 0;
         loop {
@@ -961,6 +989,7 @@ fn apply_op(w: &mut World, op: Op, rng: &mut Rng, free: usize, vd: &mut Verdicts
                 Fs::Dos33 | Fs::Dos32 => ([ "txt", "bin", "atok", "itok" ][sel % 4].to_string(), String::new()),
                 Fs::Prodos => ([ "txt", "bin", "atok", "sys" ][sel % 4].to_string(), format!("{}", sel * 97 % 65536)),
                 Fs::Pascal => ([ "txt", "bin", "pcode" ][sel % 3].to_string(), String::new()),
+                Fs::Cpm2 | Fs::Cpm3 => ([ "sys", "dir", "txt" ][sel % 3].to_string(), String::new()),
                 _ => ("txt".to_string(), String::new()),
             };
             let locked = w.files[&cp].locked;
